@@ -206,6 +206,7 @@ Definition newInterp_binds (e : envt) (pc : progconst) : list (field * val) :=
     ("randSeed", VF one_bits); ("random", e_rand1 e);
     ("convertFormat", VS b_fmt6g); ("outputFormat", VS b_fmt6g);
     ("fieldSep", VS b_space); ("savedFieldSep", VS b_space); ("recordSep", VS b_nl);
+    ("savedRecordSep", VS b_nl);
     ("outputFieldSep", VS b_space); ("outputRecordSep", VS b_nl); ("subscriptSep", VS b_subsep);
     ("lineNum", v_num0); ("fileLineNum", v_num0); ("numFields", v_num0);
     ("matchStart", v_num0); ("matchLength", v_num0);
@@ -235,7 +236,7 @@ Definition clear_maps (v : val) : val :=        (* for _, a := range p.arrays { 
 Definition resetVars_binds : list (field * val) :=
   [ ("convertFormat", VS b_fmt6g); ("outputFormat", VS b_fmt6g); ("fieldSep", VS b_space);
     ("fieldSepRegex", VNil); ("savedFieldSep", VS b_space); ("savedFieldSepRegex", VNil);
-    ("recordSep", VS b_nl); ("recordSepRegex", VNil); ("recordTerminator", VS []);
+    ("recordSep", VS b_nl); ("savedRecordSep", VS b_nl); ("recordSepRegex", VNil); ("recordTerminator", VS []);
     ("outputFieldSep", VS b_space); ("outputRecordSep", VS b_nl); ("subscriptSep", VS b_subsep) ].
 Definition m_resetVars (s : state) : state :=
   set_all resetVars_binds
@@ -460,13 +461,16 @@ Inductive role :=
 | ConfigOnce    (* built from Config.Funcs on the first run; Funcs must not change between runs (documented) *)
 | CtxState      (* meaningful only while checkCtx is true; assigned by ExecuteContext *)
 | Cache         (* content-addressed cache or reusable buffer: reset or overwritten before every use *)
-| Scratch.      (* dead at run boundaries: every read in a run is preceded by a write in that run *)
+| Scratch       (* dead at run boundaries: every read in a run is preceded by a write in that run *)
+| LineShadow.   (* settings saved by setLine together with the record (p.line) and read only by ensureFields when it
+                   splits that record: written by setLine only; resetCore empties the record, and the empty record
+                   has no fields under every setting, so the stale copy cannot be seen before setLine rewrites it *)
 
 Definition role_eqb (a b : role) : bool :=
   match a, b with
   | RunState, RunState | VarState, VarState | RandState, RandState | ProgramConst, ProgramConst
   | ConfigSet, ConfigSet | ConfigOnce, ConfigOnce | CtxState, CtxState | Cache, Cache
-  | Scratch, Scratch => true
+  | Scratch, Scratch | LineShadow, LineShadow => true
   | _, _ => false
   end.
 
@@ -492,7 +496,8 @@ Definition roles : list (field * role) :=
     ("matchLength", RunState); ("matchStart", RunState);
     ("inputMode", ConfigSet); ("csvInputConfig", ConfigSet); ("outputMode", ConfigSet);
     ("csvOutputConfig", ConfigSet);
-    ("savedFieldSep", VarState); ("savedFieldSepRegex", VarState);
+    ("savedFieldSep", VarState); ("savedFieldSepRegex", VarState); ("savedRecordSep", VarState);
+    ("savedInputMode", LineShadow); ("savedCSVInputConfig", LineShadow);
     ("program", ProgramConst); ("functions", ProgramConst); ("nums", ProgramConst);
     ("strs", ProgramConst); ("regexes", ProgramConst);
     ("checkCtx", ConfigSet); ("ctx", CtxState); ("ctxDone", CtxState); ("ctxOps", CtxState);
@@ -536,7 +541,7 @@ Definition const_fields : list field := filter (fun f => negb (mem f written_aft
 Definition is_ctx_entry (en : entry) : bool := match en with EExec => false | ECtx _ _ _ => true end.
 Definition observable (en : entry) (f : field) : bool :=
   match role_of f with
-  | Some Cache | Some Scratch | None => false
+  | Some Cache | Some Scratch | Some LineShadow | None => false
   | Some CtxState => is_ctx_entry en
   | Some _ => true
   end.
